@@ -237,7 +237,10 @@ class Compiler(object):
                 compiled[module_name][type_name] = compiled_type
 
         for recursive_type in self.recursive_types:
-            compiled_module = compiled[recursive_type.module_name]
+            _, module_name = self.lookup_type_descriptor(
+                recursive_type.type_name,
+                recursive_type.module_name)
+            compiled_module = compiled[module_name]
             inner_type = compiled_module[recursive_type.type_name].type
             recursive_type.set_inner_type(inner_type)
 
